@@ -29,7 +29,12 @@ type progAuth struct {
 	mu       sync.Mutex
 	password func(clientID, user, pass string) bool
 	acl      func(clientID, user, topic string, write bool) bool
+	// how a refusal of the ACL is worded: 0 vlauth.StatusDeny, 1 an error that is neither verdict (a backend that
+	// cannot answer), 2 no error value at all - only vlauth.StatusAllow is a permission
+	refusal int
 }
+
+var errAuthBackend = errors.New("auth backend cannot answer")
 
 func (a *progAuth) Password(clientID, user, password string) error {
 	a.mu.Lock()
@@ -46,6 +51,12 @@ func (a *progAuth) ACL(clientID, user, topic string, access vlauth.AccessType) e
 	a.mu.Unlock()
 	if f == nil || f(clientID, user, topic, access == vlauth.AccessWrite) {
 		return vlauth.StatusAllow
+	}
+	switch a.refusal {
+	case 1:
+		return errAuthBackend
+	case 2:
+		return nil
 	}
 	return vlauth.StatusDeny
 }
